@@ -8,6 +8,7 @@ pub ghost struct World { pub _w: int }
 #[verifier::external_body]
 pub fn singleton_save__KEY_CONFIG(storage: &mut dyn Storage, v: &Config) -> (r: StdResult<()>)
     ensures
+        r is Ok,   // serde serialisation of these plain types cannot fail (T4)
         r is Ok ==> final(storage).view() == (Store { config_set: true, ..old(storage).view() }),
         r is Err ==> final(storage).view() == old(storage).view(),
 { unimplemented!() }
@@ -20,6 +21,7 @@ pub fn item_may_load__PRICES(storage: &dyn Storage, key: String) -> (r: StdResul
 #[verifier::external_body]
 pub fn item_save__PRICES(storage: &mut dyn Storage, key: String, v: &Vec<PriceData>) -> (r: StdResult<()>)
     ensures
+        r is Ok,   // serde serialisation of these plain types cannot fail (T4)
         r is Ok ==> final(storage).view() == (Store { prices: old(storage).view().prices.insert(key@, v@), ..old(storage).view() }),
         r is Err ==> final(storage).view() == old(storage).view(),
 { unimplemented!() }
